@@ -55,12 +55,21 @@ def rule_rt1(A: Analysis, rep):
     if len(rc_raise) != 1:
         rep.bad("RT1", "non-zero exit raises", fi.node, "expected exactly one `raise TaskNonZeroExit`, found %d" % len(rc_raise))
         return
-    gr = A.path_guards(g, g.entry, rc_raise[0], fi)
+    # the return code may be read once into a local: atoms are compared after expanding such locals
+    rc_locals = [n_.id for s_ in walk_local(fi.node) if isinstance(s_, ast.Assign) and norm(s_.value) == "%s.returncode" % handle
+                 for n_ in s_.targets if isinstance(n_, ast.Name)]
+    def _g(node):
+        out = []
+        for c in A.path_guards(g, g.entry, node, fi):
+            out.append(frozenset((a.replace("eq(0,%s)" % rl, "eq(0,%s.returncode)" % handle) if any(a == "eq(0,%s)" % rl for rl in rc_locals) else a, p_)
+                                 for (a, p_) in c for rl in (rc_locals or [""]) ) if rc_locals else c)
+        return out
+    gr = _g(rc_raise[0])
     rep.check(gr == [frozenset({("eq(0,%s.returncode)" % handle, False)})], "RT1", "non-zero exit raises", rc_raise[0].ast,
               "TaskNonZeroExit is raised exactly when returncode != 0", "the failure raise is guarded by [%s]" % " | ".join(fmt_conj(c) for c in gr))
     for kind, nodes in (("args/options JSON", js), ("index insert", ins), ("index commit", com)):
         for n in nodes:
-            gs = A.path_guards(g, g.entry, n, fi)
+            gs = _g(n)
             rep.check(bool(gs) and all(need in c for c in gs), "RT1", "failure precedes %s" % kind, n.ast,
                       "reached only when returncode == 0", "%s is reachable although the task exited non-zero: [%s]" % (kind, " | ".join(fmt_conj(c) for c in gs)))
     rep.check(bool(ins) and bool(com), "RT1", "records exist", fi.node, "", "finish_execution no longer records a version (insert=%d commit=%d)" % (len(ins), len(com)), deep=False)
@@ -80,7 +89,10 @@ def rule_rt2(A: Analysis, rep):
     recv = sorted({norm(c.func.value) for n in fin for c in A.calls_in(n.ast, "OutputHandler.finish")})
     rep.check(recv == ["%s.stderr" % handle, "%s.stdout" % handle], "RT2", "both handlers finished", fi.node,
               "stdout and stderr handlers are finished", "finish() is called on %s" % recv)
-    rc_tests = [n for n in g.nodes if n.kind == "test" and "%s.returncode" % handle in norm(n.ast)]
+    rc_locals = {n_.id for s_ in walk_local(fi.node) if isinstance(s_, ast.Assign) and norm(s_.value) == "%s.returncode" % handle
+                 for n_ in s_.targets if isinstance(n_, ast.Name)}
+    rc_tests = [n for n in g.nodes if n.kind == "test" and ("%s.returncode" % handle in norm(n.ast) or
+                                                            any(isinstance(x, ast.Name) and x.id in rc_locals for x in ast.walk(n.ast)))]
     rep.check(bool(rc_tests) and all(g.all_paths_pass(g.entry, t, [f], skip_labels=skip) for t in rc_tests for f in fin) and len(fin) >= 2,
               "RT2", "logs complete before the verdict", fi.node, "both logs are complete before the return code is examined",
               "the return code is examined before both output handlers were finished")
